@@ -8,77 +8,29 @@
 (* PObs, Close = PDone; invariant: the monitor never objects (bad = "").   *)
 (* Mirrors no code beyond IndexEdit.                                       *)
 (***************************************************************************)
-EXTENDS IndexEdit, IndexEditProp, SequencesExt
+EXTENDS IndexEditAlpha, IndexEditProp, SequencesExt
 
 CONSTANTS Alphabet, MaxCmds
 VARIABLE ncmd
 mvars == <<vars, pvars, ncmd>>
-
-C0 == Cmd("add", <<>>, <<>>, <<>>, <<>>, "", "", <<>>, "", "", FALSE, FALSE, FALSE)
-Create(refs, plats) == [C0 EXCEPT !.op = "create", !.mt = "oci", !.refs = refs, !.plats = plats]
-Add(refs, plats) == [C0 EXCEPT !.refs = refs, !.plats = plats]
-Del(digs, plats) == [C0 EXCEPT !.op = "delete", !.digs = digs, !.plats = plats]
-
-AlphaCore == {
-  Create(<<"S1:ix1">>, <<"linux/amd64", "linux/arm/v7">>),
-  Create(<<"S1:a64", "S1:arm64">>, <<>>),
-  [Create(<<"S2:dl1">>, <<"linux/amd64">>) EXCEPT !.mt = "docker", !.ann = <<KV("a", "1")>>, !.at = "application/vnd.example.idx"],
-  [Create(<<>>, <<>>) EXCEPT !.digs = <<"armv7", "armv7">>],
-  [Create(<<"S1:a64">>, <<>>) EXCEPT !.mt = "bad"],
-  [Create(<<"S1:a64">>, <<>>) EXCEPT !.bydig = TRUE],
-  [Create(<<"S1:art">>, <<>>) EXCEPT !.subj = "a64", !.at = "application/vnd.example.idx", !.ann = <<KV("org.example.keep", "1")>>],
-  [Create(<<>>, <<>>) EXCEPT !.subj = "v1"],
-  Add(<<"S1:arm64">>, <<>>),
-  [Add(<<"S1:a64">>, <<>>) EXCEPT !.dann = <<KV("a", "1")>>],
-  [Add(<<"S1:ix1">>, <<"linux/arm64", "unknown/unknown">>) EXCEPT !.rfr = TRUE],
-  [Add(<<"S1:a64">>, <<>>) EXCEPT !.dtags = TRUE],
-  Add(<<"S1:nosuch">>, <<>>),
-  Add(<<"S1:a64", "S1:nosuch">>, <<>>),
-  Add(<<"S2:ixw">>, <<"windows/amd64,osver=10.0.17763", "linux/amd64">>),
-  [Add(<<"S1:a64">>, <<>>) EXCEPT !.dplat = "linux/arm64/v8"],
-  [Add(<<>>, <<>>) EXCEPT !.digs = <<"ghost">>],
-  [Add(<<"S2:ixn">>, <<>>) EXCEPT !.digs = <<"armv8">>],
-  Add(<<"S1:a64">>, <<"linux/amd64/bad!">>),
-  Del(<<"a64">>, <<>>),
-  Del(<<>>, <<"linux/amd64">>),
-  Del(<<>>, <<"linux/arm", "windows/amd64,osver=10.0.17763.5458">>),
-  Del(<<"art", "d64">>, <<"linux/arm64">>),
-  Del(<<>>, <<"lin ux/amd64">>)
-}
-\* a source that cannot be copied completely (only when the target is not that source repository)
-AlphaBroken == {Add(<<"S1:ixb">>, <<>>), Add(<<"S1:ixb">>, <<"linux/arm64">>), Add(<<"S1:arm64", "S1:ixb">>, <<>>)}
-\* an unparsable --desc-platform: as found it is swallowed (finding X03-1)
-AlphaDescPlat == {[Add(<<"S1:a64">>, <<>>) EXCEPT !.dplat = "linux/amd64/bad!"],
-                  [Create(<<"S1:a64">>, <<>>) EXCEPT !.dplat = "lin ux/amd64"]}
-AlphaSmall == {Create(<<"S1:ix1">>, <<"linux/amd64", "linux/arm/v7">>), Add(<<"S1:arm64">>, <<>>),
-               [Add(<<"S1:a64">>, <<>>) EXCEPT !.dann = <<KV("a", "1")>>], Add(<<"S1:a64", "S1:nosuch">>, <<>>),
-               Del(<<"a64">>, <<>>), Del(<<>>, <<"linux/amd64">>), Add(<<"S1:ixb">>, <<>>)}
-AlphaAll == AlphaCore \cup AlphaBroken
-AlphaKnown == AlphaSmall \cup AlphaDescPlat
-
-Allowed(c) == ~(same /\ \E i \in DOMAIN c.refs : c.refs[i] = "S1:ixb")
 
 \* deep audit of the index under the tag
 MissingNow(t, m) ==
   IF t.k # "idx" THEN <<>>
   ELSE SetToSeq(UNION {Reach(t.v.ents[i].id) : i \in DOMAIN t.v.ents} \ m)
 
-MInit == Init /\ PInit /\ ncmd = 0
 MBegin == /\ ncmd < MaxCmds /\ \E c \in Alphabet : Allowed(c) /\ Begin(c) /\ PCmd(c)
           /\ ncmd' = ncmd + 1
 MStep ==
   /\ Step
   /\ ncmd' = ncmd
   /\ IF pc = "close"
-     THEN PDone(IF out = "ok" THEN 0 ELSE 1, IF out = "fail:refused" THEN 1 ELSE 0, tag', MissingNow(tag', tman'),
+     THEN PDone(IF out = "ok" THEN 0 ELSE 1, IF rf THEN 1 ELSE 0, tag', MissingNow(tag', tman'),
                 SetToSeq(tman'), SetToSeq(xt'),
                 IF out = "ok" /\ cmd.op = "create" /\ cmd.bydig THEN [k |-> "idx", v |-> newv] ELSE [k |-> "none"])
      ELSE IF <<tman', tidx', tag', xt'>> # <<tman, tidx, tag, xt>> THEN PObs(tag', MissingNow(tag', tman'))
      ELSE UNCHANGED pvars
-\* the first observation: the state the target was set up in
-MSetup == /\ pc = "idle" /\ ncmd = 0 /\ pcmd = None /\ pcur = [k |-> "none"] /\ phave = {} /\ tag.k # "none"
-          /\ PReset(tag, SetToSeq(tman)) /\ UNCHANGED <<vars, ncmd>>
-MInitP == Init /\ ncmd = 0 /\ pcur = tag /\ phave = tman /\ pcmd = None /\ pwant = None /\ pnew = FALSE /\ bad = ""
+MInitP == Init /\ ncmd = 0 /\ pcur = tag /\ phave = tman /\ pcmd = NoCmd /\ pwant = None /\ pnew = FALSE /\ bad = ""
 MNext == MBegin \/ MStep
 MSpec == MInitP /\ [][MNext]_mvars
 
